@@ -32,7 +32,7 @@ Definition spread_result (res : gv) : outcome (list rparam) :=
   | _ => fail "unhandled param path type"
   end.
 
-(** sort.Slice of map keys by Value.String(): modelled for string-kinded keys *)
+(** sort.Slice of map keys by their printed value (mapKeySortText): byte-wise order of the texts *)
 Fixpoint str_ltb (a b : str) : bool :=
   match a, b with
   | [], [] => false
@@ -47,9 +47,32 @@ Fixpoint insert_kv (kv : str * gv) (l : list (str * gv)) : list (str * gv) :=
   | x :: l' => if str_ltb (fst kv) (fst x) then kv :: l else x :: insert_kv kv l'
   end.
 
+(** the text a map key is ordered by in func_Select (mapKeySortText): the string itself for a key of
+    kind string, fmt.Sprint of the key otherwise — modelled for unnamed integers and booleans and for
+    the nil interface; None = no modelled printed form (floats, named numbers and booleans — which may
+    carry a String method —, composite keys) *)
+Definition key_sort_text (k : gv) : option str :=
+  match k with
+  | VStr _ s => Some s
+  | VInt _ false z => Some (show_Z z)
+  | VBool false b => Some (if b then bs "true" else bs "false")
+  | VNil => Some []
+  | _ => None
+  end.
+
+(** no two of the texts are equal *)
+Fixpoint str_nodupb (l : list str) : bool :=
+  match l with
+  | [] => true
+  | x :: l' => negb (str_mem x l') && str_nodupb l'
+  end.
+
+(** the values of a map in the order of the printed keys; None when a key has no modelled printed
+    form, or when two keys print alike (Go then orders them by the name of their types, which the
+    model does not carry) *)
 Definition sorted_values (kvs : list (gv * gv)) : option (list gv) :=
-  match all_some (map (fun '(k, v) => match k with VStr _ s => Some (s, v) | _ => None end) kvs) with
-  | Some l => Some (map snd (fold_right insert_kv [] l))
+  match all_some (map (fun '(k, v) => match key_sort_text k with Some s => Some (s, v) | None => None end) kvs) with
+  | Some l => if str_nodupb (map fst l) then Some (map snd (fold_right insert_kv [] l)) else None
   | None => None
   end.
 
@@ -185,7 +208,7 @@ Fixpoint eval (fuel : nat) (n : node) (cur orig : gv) : outcome gv :=
               match sorted_values kvs with
               | Some vs => do rs <- select_elems (fun x => eval k (NTop t) x x) vs;
                            Ok (VSlice EAny (match rs with [] => true | _ => false end) rs)
-              | None => Declined "Select over a map whose keys are not strings"
+              | None => Declined "Select over a map whose keys have no modelled printed form, or print alike"
               end
             | _ => fail "unsupported type; expected array or map"
             end
